@@ -85,6 +85,13 @@ def run(pm, ctx):
               'classes follow linearize_data_types(), aliases follow linearize_aliases()', g.loc,
               msg='class/alias emission no longer follows the linearisations: %s' % sorted(loops),
               key='C09-R1|linearized')
+    for callee, want in (('_generate_struct_class', 'namespace.linearize_data_types()'),
+                         ('_generate_alias_definition', 'namespace.linearize_aliases()')):
+        its = [unparse(l.iter) for l in g.node.body if isinstance(l, ast.For) and
+               any(call_name(c) == callee for c in ast.walk(l) if isinstance(c, ast.Call))]
+        ctx.check('C09-R1', its == [want], '%s is driven by %s' % (callee, want), g.loc,
+                  msg='%s is driven by %s: a child could be emitted before its parent / an alias '
+                      'before its target' % (callee, its), key='C09-R1|driver|%s' % callee)
     cls_loop = [l for l in g.node.body if isinstance(l, ast.For) and
                 unparse(l.iter) == 'namespace.linearize_data_types()' and
                 any(call_name(c) == '_generate_struct_class' for c in ast.walk(l)
